@@ -10,3 +10,10 @@ Proof. exact gen_byte_rchr_eq. Qed.
 Lemma tie_generated_byte_chr : forall (s : bytes) (c : N), bytes_ok s -> (c < 256)%N -> Z.of_nat (length s) < 2 ^ 32 ->
   retval (C_byte_chr.run (S (length s)) (zs s) 0 (Z.of_nat (length s)) (Z.of_N c)) = Some (Z.of_nat (first_index c s)).
 Proof. exact gen_byte_chr_eq. Qed.
+(* control.c striptrailingwhitespace() as generated from today's source = the model's strip_trailing_ws (control_readline) *)
+From NQ Require Tie.Gen_header.
+Lemma tie_generated_striptrailingwhitespace : forall s : bytes, bytes_ok s -> Z.of_nat (length s) < 2 ^ 32 ->
+  option_map (fun r => C_striptrailingwhitespace.v_sa__len (snd r))
+    (C_striptrailingwhitespace.run (S (length s)) (zs s) (Z.of_nat (length s)))
+  = Some (Z.of_nat (length (Route.strip_trailing_ws s))).
+Proof. exact Gen_header.gen_striptrailingwhitespace_eq. Qed.
